@@ -40,6 +40,8 @@ CONSTANTS
     ENDDEP,     \* TRUE iff the end value is u0 + dt*sum(w f) (do_coll_update / right end not a node), i.e. depends on u[0]
     T0, TEND,   \* ticks
     DT0,        \* level_params.dt in ticks (= dt_initial)
+    REUSE,      \* TRUE: the controller object was used before (e.g. an adaptive run whose last block was shorter than NP): its
+                \* steps hold left-over step sizes, each DT0 or DT0/2 -- run() lays the first block out with what the steps hold
     O_RES, O_RS, O_DTN, O_FD, O_FC  \* oracle domains (subsets of BOOLEAN, multiplier codes)
 
 Slots  == 0 .. NP - 1
@@ -457,11 +459,17 @@ AccRec(p, s) == [t |-> time[p], dt |-> dt[p], niter |-> s.iter[p], nit |-> s.nit
 -----------------------------------------------------------------------------
 (* Actions                                                                 *)
 
+RECURSIVE SumBefore(_, _)
+SumBefore(d, p) == IF p = 0 THEN 0 ELSE d[p - 1] + SumBefore(d, p - 1)
+\* start times of the first block: t0 + sum of the step sizes of the preceding steps (controller_nonMPI.run)
+StartTimes(d) == [p \in Slots |-> T0 + SumBefore(d, p)]
+LeftOver == IF REUSE /\ DT0 % 2 = 0 THEN [Slots -> {DT0, DT0 \div 2}] ELSE {[p \in Slots |-> DT0]}
+
 Init ==
     /\ phase = "init"
     /\ nact = 0
     /\ time = [p \in Slots |-> 0]
-    /\ dt = [p \in Slots |-> DT0]
+    /\ dt \in LeftOver
     /\ st = InitSt
     /\ carry = <<"u0">>
     /\ acc = <<>>
@@ -473,7 +481,7 @@ Init ==
 
 RunStart ==
     /\ phase = "init"
-    /\ LET tm == [p \in Slots |-> T0 + p * DT0]
+    /\ LET tm == StartTimes(dt)
            n  == NumActive(tm)
        IN /\ time' = tm
           /\ nact' = n
